@@ -13,5 +13,5 @@ CONSTANTS
   NF = 2
   Modes = {0, 1}
   Full = FALSE
-INVARIANTS CountMatches RootsMatchNaive ProofsMatchNaive MemberSound SupplementSound HistorySound CarrierSound KindsDisjoint ReuseSound
+INVARIANTS CountMatches RootsMatchNaive ProofsMatchNaive MemberSound SupplementSound HistorySound CarrierSound KindsDisjoint ReuseSound TxnSound
 CHECK_DEADLOCK FALSE
